@@ -110,20 +110,23 @@ func (p *probeProc) stop() {
 }
 
 // lastStatus reads what the probe last wrote into the shared status file.
-func (p *probeProc) lastStatus() (seq int, op string) {
+func (p *probeProc) lastStatus() (seq int, op string, chain, itemNo int) {
 	b, err := os.ReadFile(p.status)
 	if err != nil || len(b) < statusFileLen {
-		return -1, ""
+		return -1, "", 0, -1
 	}
 	v := uint64(0)
 	for i := 7; i >= 0; i-- {
 		v = v<<8 | uint64(b[i])
 	}
+	le32 := func(o int) int {
+		return int(uint32(b[o]) | uint32(b[o+1])<<8 | uint32(b[o+2])<<16 | uint32(b[o+3])<<24)
+	}
 	s := b[16:]
 	if i := bytes.IndexByte(s, 0); i >= 0 {
 		s = s[:i]
 	}
-	return int(int64(v)), string(s)
+	return int(int64(v)), string(s), le32(8), le32(12)
 }
 
 // roundTrip sends one request. died reports that the probe process ended
@@ -154,7 +157,7 @@ const maxTripsPerCase = 6
 // observations. Trips (bounds exceeded / probe death) restart the probe and
 // continue the job with the offending operation skipped.
 func drive(c *runner.Ctx, j *job) {
-	req := &probeReq{Items: j.items, Chain: j.chain}
+	req := &probeReq{Items: j.items, Chain: j.chain, Chains: j.chains}
 	for attempt := 0; ; attempt++ {
 		if theProbe == nil {
 			p, err := startProbe(c.Env)
@@ -191,12 +194,12 @@ func drive(c *runner.Ctx, j *job) {
 				theProbe = nil
 				return
 			}
-			seq, op := theProbe.lastStatus()
+			seq, op, chainNo, itemNo := theProbe.lastStatus()
 			fr, class := crashSite(se)
 			if f2 := loopFrame(dyingGoroutine(se)); f2 != "unknown" {
 				fr = f2
 			}
-			t = &trip{Class: "fatal:" + class, Op: op, Seq: seq, Frame: fr, Stack: head(se, 4000), Item: -1}
+			t = &trip{Class: "fatal:" + class, Op: op, Seq: seq, Frame: fr, Stack: head(se, 4000), Item: itemNo, Chain: chainNo}
 		} else {
 			t = resp.Trip
 			theProbe.stop()
@@ -210,7 +213,20 @@ func drive(c *runner.Ctx, j *job) {
 		} else if len(j.items) > 0 {
 			it = j.items[0]
 		}
-		w := &witness{Op: t.Op, Input: hexs(it.In), Case: it.Desc, Chain: j.chain, Mode: it.Mode, Types: it.Types, Stack: t.Stack, Alloc: t.Alloc, Bound: t.Bound}
+		ch := j.chain
+		if len(j.chains) > 0 {
+			ch = j.chains[0]
+			if t.Chain >= 0 && t.Chain < len(j.chains) {
+				ch = j.chains[t.Chain]
+			}
+		}
+		if ch != nil && ch.Desc != "" {
+			it.Desc = ch.Desc + " -> " + it.Desc
+		}
+		w := &witness{Op: t.Op, Input: hexs(it.In), Case: it.Desc, Chain: ch, Mode: it.Mode, Types: it.Types, Stack: t.Stack, Alloc: t.Alloc, Bound: t.Bound}
+		if t.Class != "cpu-presumed" {
+			c.Seen("violation_key_by_generator", curKind+" es/"+t.Frame+"/"+strings.TrimPrefix(t.Class, "fatal:")+" (trip)")
+		}
 		switch {
 		case t.Class == "alloc":
 			c.Violation("es/"+t.Frame+"/alloc", fmt.Sprintf("%s had allocated %d bytes for %d input bytes when it was stopped (bound %d = 8 MiB + 1024*len), inside %s (case %s)",
@@ -223,7 +239,7 @@ func drive(c *runner.Ctx, j *job) {
 			key := "es/" + t.Frame + "/cpu"
 			confirmed := false
 			if p2, err := startProbe(c.Env); err == nil {
-				creq := &probeReq{Items: j.items, Chain: j.chain, Poisoned: req.Poisoned, StopAt: t.Seq, Confirm: true}
+				creq := &probeReq{Items: j.items, Chain: j.chain, Chains: j.chains, Poisoned: req.Poisoned, StopAt: t.Seq, Confirm: true}
 				r2, died2, _ := p2.roundTrip(creq)
 				if !died2 && r2 != nil && r2.Trip != nil && r2.Trip.Class == "cpu" && r2.Trip.Seq == t.Seq {
 					confirmed = true
@@ -267,6 +283,7 @@ func dyingGoroutine(se string) string {
 func merge(c *runner.Ctx, r *probeResp) {
 	for _, v := range r.Viol {
 		c.Violation(v.Key, v.What, v.Detail)
+		c.Seen("violation_key_by_generator", curKind+" "+v.Key)
 	}
 	for cat, m := range r.Seen {
 		for k, n := range m {
